@@ -23,12 +23,17 @@ structure Variant where
   f4_inRangeNotSelfVerified : Bool := true
   /-- F7: code-review approval predicate is not validated against the lookup key. -/
   f7_ghPredicateNotValidated : Bool := true
+  /-- F27: the mergeability relaxation "threshold - 1 is enough, the recorder supplies the last
+  signature" is only applied to rules with threshold > 1, so a threshold-1 rule without approvals is
+  reported "not mergeable" although an authorized recorder's entry verifies. -/
+  f27_mergeableNeedsThreshold2 : Bool := true
   deriving Repr, DecidableEq, Inhabited
 
 def Variant.current : Variant := {}
 def Variant.good : Variant :=
   { f1_exhaustiveSatisfies := false, f2_propagationSkipped := false, f3_fixNotVerified := false,
-    f4_inRangeNotSelfVerified := false, f7_ghPredicateNotValidated := false }
+    f4_inRangeNotSelfVerified := false, f7_ghPredicateNotValidated := false,
+    f27_mergeableNeedsThreshold2 := false }
 
 inductive VE where
   | verif            -- ErrVerificationFailed / ErrVerifierConditionsUnmet
@@ -176,6 +181,12 @@ def creditApprovers (defs : List PrincipalSpec) (apps : List String) (vp : List 
     | some p => used ++ [p.id]
     | none => used) used
 
+def withApprovers (defs : List PrincipalSpec) (apps : List String) (vp : List Principal)
+    (approvers : Option (List String)) (used : List PId) : List PId :=
+  match approvers with
+  | none => used
+  | some as => creditApprovers defs apps vp as used
+
 structure UVResult where
   usedName : String
   accepted : List PId
@@ -190,17 +201,14 @@ def usingVerifiers (v : Variant) (P : Policy) (vs : List VerifierN) (g : Option 
   let rec go : List VerifierN → Except VE UVResult
     | [] => .error .verif
     | vn :: rest =>
-      let ver := vn.v
-      match ver.verify g 1 auth with
+      match vn.v.verify g 1 auth with
       | .ok used => .ok { usedName := vn.name, accepted := used, rslNeeded := false }
       | .error (.unmet used) =>
-        let used := match approvers with
-          | none => used
-          | some as => creditApprovers defs apps ver.principals as used
-        let trustedUsed := used.filter (fun p => ver.principals.any (·.id == p))
-        if (trustedUsed.length : Int) ≥ ver.threshold then
+        let used := withApprovers defs apps vn.v.principals approvers used
+        let trustedUsed := used.filter (fun p => vn.v.principals.any (·.id == p))
+        if (trustedUsed.length : Int) ≥ vn.v.threshold then
           .ok { usedName := vn.name, accepted := trustedUsed, rslNeeded := false }
-        else if mergeable && ver.threshold > 1 && (trustedUsed.length : Int) ≥ ver.threshold - 1 then
+        else if mergeable && (vn.v.threshold > 1 || !v.f27_mergeableNeedsThreshold2) && (trustedUsed.length : Int) ≥ vn.v.threshold - 1 then
           .ok { usedName := vn.name, accepted := trustedUsed, rslNeeded := true }
         else go rest
       | .error _ => .error .other
@@ -213,9 +221,7 @@ def usingVerifiers (v : Variant) (P : Policy) (vs : List VerifierN) (g : Option 
       match ex.v.verify g 1 auth with
       | .error _ => .error .other
       | .ok exUsed =>
-        let exUsed := match approvers with
-          | none => exUsed
-          | some as => creditApprovers defs apps ex.v.principals as exUsed
+        let exUsed := withApprovers defs apps ex.v.principals approvers exUsed
         if rest.isEmpty then .ok { usedName := ex.name, accepted := exUsed, rslNeeded := false }
         else match go rest with
           | .error e => .error e
@@ -419,6 +425,49 @@ def verifyRefFromEntry (W : World) (v : Variant) (ref : String) (frm : Nat) : Ex
       W.verifyRelative v frm l ref
       pure ((W.log[l]?).bind targetCommit)
     | none => .error .notFound
+
+/-! ### VerifyMergeable (verify.go:172-314) -/
+
+/-- `GetMergeTree(from, feature)` for the shapes generated: no base (zero id), fast-forward
+(`from` is an ancestor of `feature`) or already merged (`feature` is an ancestor of `from`).
+A real three-way merge is not modelled (`.error`). -/
+def mergeTreeOf (W : World) (frm : Option Nat) (feature : Nat) : Except VE Nat :=
+  match frm with
+  | none => .ok (W.treeOf feature)
+  | some a =>
+    if W.knows feature a then .ok (W.treeOf feature)
+    else if W.knows a feature then .ok (W.treeOf a)
+    else .error .other
+
+/-- `verifyMergeable(targetRef, fromID, featureID)`: `.ok needsSignature` or an error -/
+def verifyMergeableCommit (W : World) (v : Variant) (targetRef : String) (feature : Nat) : Except VE Bool := do
+  let frm : Option Nat := match W.latestFor targetRef W.log.length (unskipped := true) with
+    | none => none
+    | some j => (W.log[j]?).bind targetCommit
+  let mt ← W.mergeTreeOf frm feature
+  let P ← match W.latestFor policyRef W.log.length with
+    | none => (.error .noPolicy : Except VE Policy)
+    | some p => W.loadState p
+  let A ← match W.latestFor attestationsRef W.log.length with
+    | none => (pure none : Except VE (Option AttState))
+    | some a => (match W.attAt a with | some s => pure (some s) | none => .error .other)
+  let ap ← approvalsFor v P A targetRef frm mt
+  match W.verifyObject v P ("git:" ++ targetRef) none none ap { mergeable := true } with
+  | .error _ => .error .verif
+  | .ok (_, need) =>
+    if !P.hasFileRule then pure need else do
+      W.verifyFiles v P ap (W.commitsBetween feature frm)
+      pure need
+
+/-- `VerifyMergeable(targetRef, featureRef)`: the feature tip is the latest unskipped entry for featureRef -/
+def verifyMergeable (W : World) (v : Variant) (targetRef featureRef : String) : Except VE Bool :=
+  if targetRef.startsWith "refs/tags/" then .error .other else
+  match W.latestFor featureRef W.log.length (unskipped := true) with
+  | none => .error .notFound
+  | some j =>
+    match (W.log[j]?).bind targetCommit with
+    | none => .error .other
+    | some f => W.verifyMergeableCommit v targetRef f
 
 end World
 end Gittuf
